@@ -841,3 +841,74 @@ package mcp
 //@   before call parseReadResourceResultFromJSON#1 assert[C14,C01 the-transports-answer-is-decoded-by-the-shared-decoder] arg0 == rawResp && rawResp != nil
 //@ func StdioClient.Initialize
 //@   before call parseInitializeResultFromJSON#1 assert[C14,C01 the-transports-answer-is-decoded-by-the-shared-decoder] arg0 == rawResp && rawResp != nil
+
+//@ ghost stable parses int
+//@ ghost stable lastparsed interface{}
+//@ ghost stable lastparsederr error
+//@
+//@ func parseListToolsResultFromJSON
+//@   counted parses
+//@   records lastparsed ret0
+//@   records lastparsederr ret1
+//@   modifies *, parses, lastparsed, lastparsederr
+//@ func parseCallToolResult
+//@   counted parses
+//@   records lastparsed ret0
+//@   records lastparsederr ret1
+//@   modifies *, parses, lastparsed, lastparsederr
+//@ func parseListPromptsResultFromJSON
+//@   counted parses
+//@   records lastparsed ret0
+//@   records lastparsederr ret1
+//@   modifies *, parses, lastparsed, lastparsederr
+//@ func parseGetPromptResultFromJSON
+//@   counted parses
+//@   records lastparsed ret0
+//@   records lastparsederr ret1
+//@   modifies *, parses, lastparsed, lastparsederr
+//@ func parseListResourcesResultFromJSON
+//@   counted parses
+//@   records lastparsed ret0
+//@   records lastparsederr ret1
+//@   modifies *, parses, lastparsed, lastparsederr
+//@ func parseReadResourceResultFromJSON
+//@   counted parses
+//@   records lastparsed ret0
+//@   records lastparsederr ret1
+//@   modifies *, parses, lastparsed, lastparsederr
+//@ func Client.ListTools
+//@   ensures[C14,C01,C02 the-decoders-outcome-is-returned-unchanged] parses == old(parses) + 1 ==> asany(ret) == lastparsed && ret1 == lastparsederr
+//@   ensures[C14,C01 at-most-one-decoding] parses <= old(parses) + 1
+//@ func Client.CallTool
+//@   ensures[C14,C01,C02 the-decoders-outcome-is-returned-unchanged] parses == old(parses) + 1 ==> asany(ret) == lastparsed && ret1 == lastparsederr
+//@   ensures[C14,C01 at-most-one-decoding] parses <= old(parses) + 1
+//@ func Client.ListPrompts
+//@   ensures[C14,C01,C02 the-decoders-outcome-is-returned-unchanged] parses == old(parses) + 1 ==> asany(ret) == lastparsed && ret1 == lastparsederr
+//@   ensures[C14,C01 at-most-one-decoding] parses <= old(parses) + 1
+//@ func Client.GetPrompt
+//@   ensures[C14,C01,C02 the-decoders-outcome-is-returned-unchanged] parses == old(parses) + 1 ==> asany(ret) == lastparsed && ret1 == lastparsederr
+//@   ensures[C14,C01 at-most-one-decoding] parses <= old(parses) + 1
+//@ func Client.ListResources
+//@   ensures[C14,C01,C02 the-decoders-outcome-is-returned-unchanged] parses == old(parses) + 1 ==> asany(ret) == lastparsed && ret1 == lastparsederr
+//@   ensures[C14,C01 at-most-one-decoding] parses <= old(parses) + 1
+//@ func Client.ReadResource
+//@   ensures[C14,C01,C02 the-decoders-outcome-is-returned-unchanged] parses == old(parses) + 1 ==> asany(ret) == lastparsed && ret1 == lastparsederr
+//@   ensures[C14,C01 at-most-one-decoding] parses <= old(parses) + 1
+//@ func StdioClient.ListTools
+//@   ensures[C14,C01,C02 the-decoders-outcome-is-returned-unchanged] parses == old(parses) + 1 ==> asany(ret) == lastparsed && ret1 == lastparsederr
+//@   ensures[C14,C01 at-most-one-decoding] parses <= old(parses) + 1
+//@ func StdioClient.CallTool
+//@   ensures[C14,C01,C02 the-decoders-outcome-is-returned-unchanged] parses == old(parses) + 1 ==> asany(ret) == lastparsed && ret1 == lastparsederr
+//@   ensures[C14,C01 at-most-one-decoding] parses <= old(parses) + 1
+//@ func StdioClient.ListPrompts
+//@   ensures[C14,C01,C02 the-decoders-outcome-is-returned-unchanged] parses == old(parses) + 1 ==> asany(ret) == lastparsed && ret1 == lastparsederr
+//@   ensures[C14,C01 at-most-one-decoding] parses <= old(parses) + 1
+//@ func StdioClient.GetPrompt
+//@   ensures[C14,C01,C02 the-decoders-outcome-is-returned-unchanged] parses == old(parses) + 1 ==> asany(ret) == lastparsed && ret1 == lastparsederr
+//@   ensures[C14,C01 at-most-one-decoding] parses <= old(parses) + 1
+//@ func StdioClient.ListResources
+//@   ensures[C14,C01,C02 the-decoders-outcome-is-returned-unchanged] parses == old(parses) + 1 ==> asany(ret) == lastparsed && ret1 == lastparsederr
+//@   ensures[C14,C01 at-most-one-decoding] parses <= old(parses) + 1
+//@ func StdioClient.ReadResource
+//@   ensures[C14,C01,C02 the-decoders-outcome-is-returned-unchanged] parses == old(parses) + 1 ==> asany(ret) == lastparsed && ret1 == lastparsederr
+//@   ensures[C14,C01 at-most-one-decoding] parses <= old(parses) + 1
